@@ -59,6 +59,17 @@ def boundary_safe(F, body, op, indexed_roots, depth=0):
             return boundary_safe_bin(F, body, rv, indexed_roots, depth)
         return False, 'unrecognised offset (%s)' % rv['k']
     c = d.call
+    if c.is_(r'::len_utf8$'):
+        # `rest[c.len_utf8()..]` where rest is the tail of `s.split_at(offset)` and (offset, c) is one char_indices item
+        nx1 = backward_slice(body, [c.args[0]], follow_mutarg=False).has_call(r'^std::iter::Iterator::next$')
+        for sa in body.calls(r'^core::str::<impl str>::split_at$'):
+            if ('call', sa.b) not in indexed_roots:
+                continue
+            ok, _w = boundary_safe(F, body, sa.args[1], lib.roots_of(body, sa.args[0]), depth + 1)
+            nx2 = backward_slice(body, [sa.args[1]], follow_mutarg=False).has_call(r'^std::iter::Iterator::next$')
+            if ok and nx1 and nx2 and any(a is b for a in nx1 for b in nx2):
+                return True, 'len_utf8() of the char at which the indexed tail was split off'
+        return False, 'len_utf8() used as an offset into an unrelated str'
     if c.is_(r'^std::string::String::len$', r'^core::str::<impl str>::len$'):
         # length of a String built from a prefix of the indexed str
         sl = backward_slice(body, [c.args[0]], follow_mutarg=False)
@@ -143,6 +154,13 @@ def char_boundary(ctx):
                       'the str slice at line %d uses a byte offset that is not known to fall on a char boundary (%s): parsing '
                       'a policy with a multi-byte character at that position panics' % (c.ln, '; '.join(bad)),
                       '; '.join(goods), c.where())
+        for c in body.calls(r'^core::str::<impl str>::split_at$'):
+            n += 1
+            root = body.root or body.key
+            ok, why = boundary_safe(F, body, c.args[1], lib.roots_of(body, c.args[0]))
+            ctx.check(ok, root, 'str.split_at on a char boundary',
+                      'str::split_at at line %d uses a byte offset that is not known to fall on a char boundary (%s): parsing a policy '
+                      'with a multi-byte character at that position panics' % (c.ln, why), why, c.where())
     ctx.floor(n, 3, 'str slices in the parser')
 
 
@@ -176,6 +194,8 @@ def panic(ctx):
                 if ps.kind == 'ptrcheck':
                     continue
                 if ps.kind == 'index' and ps.call is not None and (ps.call.self_ty or '') in ('str', 'std::string::String'):
+                    continue
+                if ps.kind == 'str-op' and ps.detail in ('split_at', 'split_at_mut'):
                     continue
                 n += 1
                 why = c14.discharge(ctx, F, ps)
